@@ -130,7 +130,8 @@ func runLife(cfg lifeCfg, seq []string, states map[string]struct{}) (clause, det
 				clause, detail = "C14.predicates", "IsRunning/IsPaused/IsStopped disagree with Status() "+st
 				return
 			}
-			if op == "Tune2" || op == "Tune1" {
+			{
+				// the limit changes with a successful TunePool only (Restart, Stop, Pause ... keep it)
 				if n := w.Wk.NumConcurrency(); n != limit {
 					clause, detail = "C14.tune", fmt.Sprintf("NumConcurrency()=%d after %s (%s), documented %d", n, op, got, limit)
 					return
